@@ -25,15 +25,18 @@ var (
 	attrKeys   = []string{"a", "b", "c", "http.status-code", "k_1"}
 	queryKeys  = []string{"a", "a", "b", "b", "c", "http.status-code", "k_1", "zz", "service.name", "name"}
 	prefixes   = []string{".", ".", "span.", "resource."}
-	strVals    = []string{"x", "y", "xy", "GET", "", `a"b`, `a\b`, "it's", "1", "2.000000", "svcA", "op1"}
+	strVals    = []string{"x", "y", "xy", "GET", "", `a"b`, `a\b`, "it's", "1", "2.000000", "svcA", "op1", "error", "ERROR", "Error", "warn", "WARN", "a.b", "axb"}
 	numAttrs   = []string{"0", "1", "2", "3", "10", "-3", "1.500000", "2.000000", "-1.500000"}
 	oddAttrs   = []string{"1x", "abc", "true", ""}
 	spanNames  = []string{"op1", "op2", "GET /", "x", "2"}
 	services   = []string{"svcA", "svcB", "x"}
-	regexes    = []string{"x", "^x", "x$", "^x$", "x|y", "^(x|y)$", ".*", "^$", "[0-9]+", `\d+`, `^\d+$`, "a.b", "G.T", "^x.*", "(?i)get", "o+p", `a\\b`, `a"b`}
+	regexes    = []string{"x", "^x", "x$", "^x$", "x|y", "^(x|y)$", ".*", "^$", "[0-9]+", `\d+`, `^\d+$`, "a.b", "G.T", "^x.*", "(?i)get", "o+p", `a\\b`, `a"b`,
+		// literals under flags, escaped / anchored literals, alternations (RE2 decides; qryn renders match(), unanchored)
+		"(?i)error", "(?i:warn)", `a\.b`, "^error$", "^ERROR", "error$", "(?i)^a\\.b$", "error|warn", "(?i)err(or)?$", "[Ee]rror", "a.b$", "(?i)x"}
 	numConsts  = []string{"0", "0", "1", "2", "3", "10", "-3", "-2", "-1", "1.5", "2.0", "2.", "-1.5", "100", "2.000000"}
-	durConsts  = []refeval.TQValue{{Kind: "dur", Num: "1", Unit: "s"}, {Kind: "dur", Num: "1.5", Unit: "s"}, {Kind: "dur", Num: "2", Unit: "s"}, {Kind: "dur", Num: "1500", Unit: "ms"}, {Kind: "dur", Num: "1", Unit: "ms"}, {Kind: "dur", Num: "1.5", Unit: "ms"}, {Kind: "dur", Num: "500", Unit: "ns"}, {Kind: "dur", Num: "1", Unit: "us"}, {Kind: "dur", Num: "0.5", Unit: "us"}, {Kind: "dur", Num: "1", Unit: "m"}, {Kind: "dur", Num: "1", Unit: "h"}, {Kind: "dur", Num: "0", Unit: "s"}, {Kind: "dur", Num: "0.001", Unit: "s"}}
-	spanDurs   = []int64{0, 500, 1000, 1_000_000, 1_500_000, 1_000_000_000, 1_500_000_000, 2_000_000_000, 60_000_000_000, 3_600_000_000_000}
+	durConsts  = []refeval.TQValue{{Kind: "dur", Num: "1", Unit: "s"}, {Kind: "dur", Num: "1.5", Unit: "s"}, {Kind: "dur", Num: "2", Unit: "s"}, {Kind: "dur", Num: "1500", Unit: "ms"}, {Kind: "dur", Num: "1", Unit: "ms"}, {Kind: "dur", Num: "1.5", Unit: "ms"}, {Kind: "dur", Num: "500", Unit: "ns"}, {Kind: "dur", Num: "1", Unit: "us"}, {Kind: "dur", Num: "0.5", Unit: "us"}, {Kind: "dur", Num: "1", Unit: "m"}, {Kind: "dur", Num: "1", Unit: "h"}, {Kind: "dur", Num: "0", Unit: "s"}, {Kind: "dur", Num: "0.001", Unit: "s"}, {Kind: "dur", Num: "2.25", Unit: "m"}, {Kind: "dur", Num: "0.5", Unit: "ms"}, {Kind: "dur", Num: "1.5", Unit: "s"}, {Kind: "dur", Num: "1.25", Unit: "s"}}
+	// 300 µs / 1.2 s / 130 s lie between the truncated and the written value of 0.5ms / 1.5s / 2.25m
+	spanDurs   = []int64{0, 500, 1000, 300_000, 1_000_000, 1_500_000, 1_000_000_000, 1_200_000_000, 1_500_000_000, 2_000_000_000, 60_000_000_000, 130_000_000_000, 140_000_000_000, 3_600_000_000_000}
 	strOps     = []string{"=", "!=", "=~", "!~"}
 	cmpOps     = []string{"=", "!=", "<", "<=", ">", ">="}
 	aggFns     = []string{"count", "avg", "min", "max", "sum"}
@@ -421,7 +424,13 @@ var (
 		{Label: "span.a", Op: "!=", Val: refeval.TQValue{Kind: "str", Str: "x"}},
 		{Label: ".a", Op: "=~", Val: refeval.TQValue{Kind: "str", Str: "^(x|y)$"}},
 		{Label: "name", Op: "=", Val: refeval.TQValue{Kind: "str", Str: "op1"}},
+		{Label: ".a", Op: "=~", Val: refeval.TQValue{Kind: "str", Str: "(?i)error"}},
+		{Label: ".a", Op: "!~", Val: refeval.TQValue{Kind: "str", Str: "(?i:warn)"}},
+		{Label: "span.a", Op: "=~", Val: refeval.TQValue{Kind: "str", Str: `a\.b`, Tick: true}},
+		{Label: ".a", Op: "=~", Val: refeval.TQValue{Kind: "str", Str: "^error$"}},
+		{Label: ".a", Op: "=~", Val: refeval.TQValue{Kind: "str", Str: "error|a.b"}},
 	}
+	orValsA  = []string{"x", "x", "y", "z", "error", "ERROR", "Error", "warn", "WARN", "a.b", "axb"}
 	orTermsB = []refeval.TQTerm{
 		{Label: ".b", Op: ">", Val: refeval.TQValue{Kind: "num", Num: "-2"}},
 		{Label: ".b", Op: ">=", Val: refeval.TQValue{Kind: "num", Num: "0"}},
@@ -484,7 +493,7 @@ func genOrSpreadCase(rt *rapid.T) searchCase {
 				Service: "svcA",
 			}
 			if chance(rt, 70, "hasA") {
-				sp.Attrs = append(sp.Attrs, refeval.TQKV{K: "a", V: pick(rt, []string{"x", "y", "z"}, "aVal")})
+				sp.Attrs = append(sp.Attrs, refeval.TQKV{K: "a", V: pick(rt, orValsA, "aVal")})
 			}
 			if chance(rt, 75, "hasB") {
 				sp.Attrs = append(sp.Attrs, refeval.TQKV{K: "b", V: pick(rt, orValsB, "bVal")})
